@@ -1406,13 +1406,32 @@ impl Monitor for C06Monitor {
 /// A short scripted block right after the setup: some commands, krill's
 /// snapshot task, more commands - so that every history has "snapshot +
 /// later commands" for CAs, repository access and repository content.
-fn scripted_block(chain: bool) -> Vec<Op> {
+fn scripted_block(chain: bool, many_ta: bool) -> Vec<Op> {
     let (ca, roa1, roa2, asn) = if chain {
         ("leaf", "10.0.0.0/24 => 65000", "10.1.0.0/24-24 => 65000", 65000)
     } else {
         ("c1", "10.0.0.0/16-18 => 65001", "10.1.0.0/16 => 65002", 65001)
     };
-    vec![
+    let mut ops = vec![];
+    if many_ta {
+        // a dozen proxy <-> signer exchanges before the first snapshot: the
+        // trust anchor's child gets an AS number nobody below it uses, and
+        // loses it again, and calls in each time. The signer's and the
+        // proxy's histories of exchanges grow beyond any "recent ones" limit
+        // before the snapshot job runs.
+        let top = if chain { "top" } else { "p1" };
+        for i in 0..12 {
+            ops.push(Op::ChildUpdate {
+                parent: "ta".into(), child: top.into(),
+                asn: if i % 2 == 0 { "AS65000-AS65011".into() }
+                     else { "AS65000-AS65010".into() },
+                v4: "10.0.0.0/8".into(), v6: "2001:db8::/32".into(),
+            });
+            ops.push(Op::SyncParent { ca: top.into() });
+            ops.push(Op::Quiesce);
+        }
+    }
+    ops.extend(vec![
         Op::RoaDelta { ca: ca.into(), add: vec![roa1.into()], remove: vec![] },
         Op::Quiesce,
         Op::UpdateSnapshots,
@@ -1438,7 +1457,8 @@ fn scripted_block(chain: bool) -> Vec<Op> {
         Op::UpdateSnapshots,
         Op::Pump { n: 1 },
         Op::Prefer { pat: "".into() },
-    ]
+    ]);
+    ops
 }
 
 fn profile_by_name(name: &str) -> Profile {
@@ -1482,7 +1502,7 @@ fn run_history(
     let mut script = if chain { hist::chain_forest() }
         else { hist::standard_forest(true) };
     let n_setup = script.len();
-    script.extend(scripted_block(chain));
+    script.extend(scripted_block(chain, idx % 2 == 1));
     let total = script.len() + n_random;
 
     // comparison points and points where the monitor lets krill's own
